@@ -131,13 +131,14 @@ def _law(samples, mean, Sigma, labels, tag):
     n, m = samples.shape
     dev = samples - mean
     sd = np.sqrt(np.diag(Sigma))
-    if np.any(np.abs(dev.mean(0)) > 7 * sd / math.sqrt(n) + 1e-12):
+    rnd = 1e-15 * (1.0 + float(np.abs(mean).max()))  # rounding of mean + noise in float64
+    if np.any(np.abs(dev.mean(0)) > 7 * sd / math.sqrt(n) + rnd):
         return Result.violation(f"C20:noise:{tag}:mean", f"mean dev {dev.mean(0).tolist()} sd {sd.tolist()}", labels)
     S = dev.T @ dev / n
     for i in range(m):
         for j in range(m):
             se = math.sqrt((Sigma[i, i] * Sigma[j, j] + Sigma[i, j] ** 2) / n)
-            if abs(S[i, j] - Sigma[i, j]) > 7 * se + 1e-12:
+            if abs(S[i, j] - Sigma[i, j]) > 7 * se + 4 * rnd * (sd[i] + sd[j]) + rnd * rnd:
                 return Result.violation(f"C20:noise:{tag}:covariance", f"sample cov {S.tolist()} configured {Sigma.tolist()}", labels)
     Linv = np.linalg.inv(np.linalg.cholesky(Sigma))
     Z = dev @ Linv.T
@@ -217,7 +218,7 @@ def st_noise(draw):
         A = [draw(st.floats(-2, 2)) for _ in range(m * m)]
         diag = [draw(gen.st_logfloat(1e-3, 1)) for _ in range(m)]
     return {"m": m, "A": A, "diag": diag, "mu": [draw(st.floats(-3, 3)) for _ in range(m)],
-            "noise_var": draw(gen.st_logfloat(1e-3, 10)), "seed": draw(st.integers(0, 2**31 - 10))}
+            "noise_var": draw(st.one_of(gen.st_logfloat(1e-3, 10), gen.st_logfloat(1e-12, 1e4))), "seed": draw(st.integers(0, 2**31 - 10))}
 
 
 # ------------------------------------------------------------------ bundled datasets, normalisation, continuous
@@ -348,7 +349,7 @@ COMPONENTS = [
     Component("dataset_and_decoupled", check_eval, strategy=st_eval, quick=1500, thorough=40000,
               rule="1..12 designs, d=1..4, queries on grid / within 0.05 / anywhere in [-0.5,1.5]^d; index forms None/int/list"),
     Component("noise_law", check_noise, strategy=st_noise, quick=96, thorough=2000,
-              rule="m=2..3, Sigma = A A^T + D with random A (3/4) or diagonal; 4 routes x 20000 draws each"),
+              rule="m=2..3, Sigma = A A^T + D with random A (3/4) or diagonal; problem-level noise variance 1e-12..1e4 (half within 1e-3..10); 4 routes x 20000 draws each"),
     Component("bundled_datasets", check_bundled, enumerate=enum_bundled, rule="the 4 bundled datasets, every design queried"),
     Component("normalise_roundtrip", check_norm, strategy=st_norm, quick=800, thorough=20000, rule="1..4 columns, widths 1e-3..1e3"),
     Component("continuous_problem", check_continuous, strategy=st_cont, quick=600, thorough=15000,
